@@ -1,9 +1,11 @@
 //! C17 — sync bookkeeping structures vs their models. Four sub-modes (`opts.extra[0]`):
 //!
 //! `orphan`     real `ckb_chain::OrphanBlockPool` (hook re-export)
-//!     insert <id> <parent> <epoch>      -> len=<n> leaders=<ids>
-//!     release <p>                       -> <released ids, sorted, duplicates kept> len=.. leaders=..
-//!     expire <tip_epoch>                -> <released ids> len=.. leaders=..
+//!     insert <id> <parent> <epoch>      -> len=<n> leaders=<ids> parents=<h>p,..> blocks=<p:[children];..>
+//!     release <p>                       -> <released ids, sorted, duplicates kept> len=.. leaders=.. parents=.. blocks=..
+//!     expire <tip_epoch>                -> <released ids> len=.. leaders=.. parents=.. blocks=..
+//!     (the three maps come from the read-only hook `OrphanBlockPool::verif_dump`; a panic of the real code is
+//!      caught, reported as oracle class `orphan-panic`, answered `panic`, and ends the case)
 //! `skip`       real `ckb_shared::types::HeaderIndexView::{build_skip, get_ancestor}` over a header
 //!              tree kept by the harness; the locator loop of `ActiveChain::get_locator` is replayed
 //!              by the harness on top of the real `get_ancestor` (ActiveChain itself needs a node)
@@ -17,6 +19,9 @@
 //!     rmblock <now> <number> <hash>     -> true|false <dump>
 //!     prune <now> <tip>                 -> disconnect=<peers> <dump>
 //!     mark <now> <tip>                  -> ok <dump>
+//!     policy <adjustment 0|1> <protect_num> -> ok <dump>         (hook `verif_set_policy`)
+//!     <dump> = states=<n:h@peer/ts;..> scheds=<peer:task_count/timeout_count:[n:h,..];..> trace=<n:h/ts;..>
+//!              restart=<n> div=<fast,normal,low> pol=<adjustment 0|1>,<protect_num> ta=<index>/<hash of the 512 samples>
 //!     consts                            -> the constants the model was generated with
 //! `headermap`  real `ckb_shared::HeaderMap` (hook: no background task, synchronous spill, tier views)
 //!     cfg <limit items>                 -> ok
@@ -57,19 +62,59 @@ fn show<I: IntoIterator<Item = u64>>(it: I) -> String {
 // orphan
 // =================================================================================================
 
+/// the three maps of the real pool (hook `verif_dump`), canonical
+#[derive(Clone, Default, PartialEq, Debug)]
+struct OrphanDump {
+    /// parent -> [(inner key, hash of the stored block, parent of the stored block)]
+    blocks: BTreeMap<u64, Vec<(u64, u64, u64)>>,
+    parents: BTreeMap<u64, u64>,
+    leaders: BTreeSet<u64>,
+    /// a key listed twice by a map's own iteration (impossible for a map; kept so that it would show)
+    dup_keys: usize,
+}
+
 struct OrphanSim {
     pool: OrphanBlockPool,
     /// the plain model: pooled id -> (parent, epoch)
     plain: BTreeMap<u64, (u64, u64)>,
+    /// every id this case has mentioned (probe set for `get_block`)
+    seen: BTreeSet<u64>,
+    /// the real code panicked: the rest of the case is not run
+    dead: bool,
 }
 
 impl OrphanSim {
     fn new() -> Self {
-        OrphanSim { pool: OrphanBlockPool::with_capacity(16), plain: BTreeMap::new() }
+        OrphanSim { pool: OrphanBlockPool::with_capacity(16), plain: BTreeMap::new(), seen: BTreeSet::new(), dead: false }
+    }
+    fn dump(&self) -> OrphanDump {
+        let (bl, pa, le) = self.pool.verif_dump();
+        let mut d = OrphanDump::default();
+        for (p, group) in bl.iter() {
+            let mut g: Vec<(u64, u64, u64)> = group.iter().map(|(k, hh, pp)| (unh(k), unh(hh), unh(pp))).collect();
+            g.sort();
+            if d.blocks.insert(unh(p), g).is_some() {
+                d.dup_keys += 1;
+            }
+        }
+        for (hh, p) in pa.iter() {
+            if d.parents.insert(unh(hh), unh(p)).is_some() {
+                d.dup_keys += 1;
+            }
+        }
+        for l in le.iter() {
+            if !d.leaders.insert(unh(l)) {
+                d.dup_keys += 1;
+            }
+        }
+        d
     }
     fn tail(&self) -> String {
-        let l: BTreeSet<u64> = self.pool.clone_leaders().iter().map(unh).collect();
-        format!("len={} leaders={}", self.pool.len(), show(l))
+        let d = self.dump();
+        let pa: Vec<String> = d.parents.iter().map(|(hh, p)| format!("{hh}>{p}")).collect();
+        let bl: Vec<String> = d.blocks.iter().map(|(p, g)| format!("{p}:[{}]", g.iter().map(|x| x.1.to_string()).collect::<Vec<_>>().join(","))).collect();
+        let j = |v: Vec<String>, sep: &str| if v.is_empty() { "-".to_string() } else { v.join(sep) };
+        format!("len={} leaders={} parents={} blocks={}", self.pool.len(), show(d.leaders.iter().copied()), j(pa, ","), j(bl, ";"))
     }
     fn plain_leaders(&self) -> BTreeSet<u64> {
         self.plain.values().map(|(p, _)| *p).filter(|p| !self.plain.contains_key(p)).collect()
@@ -86,25 +131,97 @@ impl OrphanSim {
         }
         out
     }
+    /// the plain-math specification of the pool, stated on the implementation's own three maps
     fn check(&self, out: &mut Out, what: &str) {
+        let d = self.dump();
         let l: BTreeSet<u64> = self.pool.clone_leaders().iter().map(unh).collect();
         if l != self.plain_leaders() {
-            out.oracle_fail("orphan-leaders", &format!("{what}: leaders={} expected={}", show(l), show(self.plain_leaders())));
+            out.oracle_fail("orphan-leaders", &format!("{what}: leaders={} expected={}", show(l.clone()), show(self.plain_leaders())));
         }
         if self.pool.len() != self.plain.len() {
             out.oracle_fail("orphan-len", &format!("{what}: len={} expected={}", self.pool.len(), self.plain.len()));
         }
+        // --- the three maps, against the plain relation `pooled id -> parent`
+        // parents[h] = parent of block h, for exactly the pooled h
+        let want_parents: BTreeMap<u64, u64> = self.plain.iter().map(|(id, (p, _))| (*id, *p)).collect();
+        if d.parents != want_parents {
+            out.oracle_fail("orphan-parents-map", &format!("{what}: parents={:?} expected={:?}", d.parents, want_parents));
+        }
+        // blocks[p] = all pooled children of p (no empty group; inner key = hash of the stored block; stored parent = p)
+        let mut want_blocks: BTreeMap<u64, Vec<(u64, u64, u64)>> = BTreeMap::new();
+        for (id, (p, _)) in self.plain.iter() {
+            want_blocks.entry(*p).or_default().push((*id, *id, *p));
+        }
+        if d.blocks != want_blocks {
+            out.oracle_fail("orphan-blocks-map", &format!("{what}: blocks={:?} expected={:?}", d.blocks, want_blocks));
+        }
+        // leaders = { parent hashes of pooled blocks whose parent is not pooled }, on the dump itself
+        if d.leaders != l || d.dup_keys != 0 {
+            out.oracle_fail("orphan-dump-unstable", &format!("{what}: dump leaders={} clone_leaders={} duplicate keys={}", show(d.leaders.iter().copied()), show(l), d.dup_keys));
+        }
+        // --- internal consistency of the three maps (no reference to the plain model)
+        let by_parents: BTreeSet<u64> = d.parents.values().copied().filter(|p| !d.parents.contains_key(p)).collect();
+        if d.leaders != by_parents {
+            out.oracle_fail("orphan-leaders-vs-parents", &format!("{what}: leaders={} parents-map says {}", show(d.leaders.iter().copied()), show(by_parents)));
+        }
+        let mut pairs_blocks: BTreeSet<(u64, u64)> = BTreeSet::new();
+        let mut n_blocks = 0usize;
+        for (p, g) in d.blocks.iter() {
+            if g.is_empty() {
+                out.oracle_fail("orphan-empty-group", &format!("{what}: blocks[{p}] is empty"));
+            }
+            for (k, hh, pp) in g {
+                n_blocks += 1;
+                if k != hh || pp != p {
+                    out.oracle_fail("orphan-group-key-mismatch", &format!("{what}: blocks[{p}][{k}] holds block {hh} with parent {pp}"));
+                }
+                pairs_blocks.insert((*hh, *p));
+            }
+        }
+        let pairs_parents: BTreeSet<(u64, u64)> = d.parents.iter().map(|(a, b)| (*a, *b)).collect();
+        if pairs_blocks != pairs_parents || n_blocks != d.parents.len() || self.pool.len() != n_blocks {
+            out.oracle_fail("orphan-maps-out-of-step", &format!("{what}: blocks={:?} parents={:?} len={}", d.blocks, d.parents, self.pool.len()));
+        }
+        // get_block (parents look-up, then blocks look-up) answers exactly the pooled blocks
+        for id in self.seen.iter() {
+            let got = self.pool.verif_get_block(&h(*id)).map(|(a, b)| (unh(&a), unh(&b)));
+            let want = self.plain.get(id).map(|(p, _)| (*id, *p));
+            if got != want {
+                out.oracle_fail("orphan-get-block", &format!("{what}: get_block({id})={got:?} expected={want:?}"));
+            }
+        }
+    }
+    /// run one call of the real pool; a panic (debug assertion) is a finding, not a harness crash
+    fn guarded<T>(&mut self, out: &mut Out, op: &str, f: impl FnOnce(&OrphanBlockPool) -> T) -> Option<T> {
+        let pool = &self.pool;
+        match std::panic::catch_unwind(std::panic::AssertUnwindSafe(|| f(pool))) {
+            Ok(v) => Some(v),
+            Err(_) => {
+                out.oracle_fail("orphan-panic", &format!("{op}: the pool panicked (debug assertion `removed list must not be zero`: a leader without descendants)"));
+                out.op(op, "panic");
+                self.dead = true;
+                None
+            }
+        }
     }
     fn insert(&mut self, out: &mut Out, id: u64, parent: u64, epoch: u64) {
-        self.pool.insert(LonelyBlockHash {
+        if self.dead {
+            return;
+        }
+        let op = format!("insert {id} {parent} {epoch}");
+        self.seen.insert(id);
+        self.seen.insert(parent);
+        let blk = LonelyBlockHash {
             block_number_and_hash: BlockNumberAndHash::new(id, h(id)),
             parent_hash: h(parent),
             epoch_number: epoch,
             switch: None,
             verify_callback: None,
-        });
+        };
+        if self.guarded(out, &op, move |p| p.insert(blk)).is_none() {
+            return;
+        }
         self.plain.insert(id, (parent, epoch));
-        let op = format!("insert {id} {parent} {epoch}");
         out.op(&op, &self.tail());
         self.check(out, &op);
     }
@@ -133,13 +250,22 @@ impl OrphanSim {
         self.check(out, op);
     }
     fn release(&mut self, out: &mut Out, p: u64) {
+        if self.dead {
+            return;
+        }
+        self.seen.insert(p);
         let expect = self.plain_desc(p);
         // the property speaks about releasing a parent that is not itself pooled
         let judge = !self.plain.contains_key(&p);
-        let blocks = self.pool.remove_blocks_by_parent(&h(p));
-        self.released(out, &format!("release {p}"), blocks, expect, judge);
+        let op = format!("release {p}");
+        if let Some(blocks) = self.guarded(out, &op, |pool| pool.remove_blocks_by_parent(&h(p))) {
+            self.released(out, &op, blocks, expect, judge);
+        }
     }
     fn expire(&mut self, out: &mut Out, tip_epoch: u64) {
+        if self.dead {
+            return;
+        }
         let mut expect = BTreeSet::new();
         for l in self.plain_leaders() {
             // siblings share their epoch in every generated history
@@ -148,8 +274,10 @@ impl OrphanSim {
                 expect.extend(self.plain_desc(l));
             }
         }
-        let blocks = self.pool.clean_expired_blocks(tip_epoch);
-        self.released(out, &format!("expire {tip_epoch}"), blocks, expect, true);
+        let op = format!("expire {tip_epoch}");
+        if let Some(blocks) = self.guarded(out, &op, |pool| pool.clean_expired_blocks(tip_epoch)) {
+            self.released(out, &op, blocks, expect, true);
+        }
     }
 }
 
@@ -513,11 +641,15 @@ type Key = (u64, u64);
 
 #[derive(Clone, Default, PartialEq, Debug)]
 struct Dump {
-    states: BTreeMap<Key, (u64, u64)>,            // block -> (peer, ts)
-    scheds: BTreeMap<u64, (usize, BTreeSet<Key>)>, // peer -> (task_count, blocks)
+    states: BTreeMap<Key, (u64, u64)>,                    // block -> (peer, ts)
+    scheds: BTreeMap<u64, (usize, usize, BTreeSet<Key>)>, // peer -> (task_count, timeout_count, blocks)
     trace: BTreeMap<Key, u64>,
     restart: u64,
     div: (u64, u64, u64),
+    adjustment: bool,
+    protect: usize,
+    ta_index: usize,
+    ta_trace: Vec<u64>,
 }
 
 fn key(b: &BlockNumberAndHash) -> Key {
@@ -530,13 +662,25 @@ fn bnh(k: Key) -> BlockNumberAndHash {
 
 fn dump_of(t: &InflightBlocks) -> Dump {
     let (st, sc, tr, restart) = t.verif_dump();
+    let (to, adjustment, protect, ta_index, ta_trace) = t.verif_dump_policy();
+    let to: HashMap<u64, usize> = to.iter().map(|(p, c)| (p.value() as u64, *c)).collect();
     Dump {
         states: st.iter().map(|(k, p, ts)| (key(k), (p.value() as u64, *ts))).collect(),
-        scheds: sc.iter().map(|(p, tc, bs)| (p.value() as u64, (*tc, bs.iter().map(key).collect()))).collect(),
+        scheds: sc.iter().map(|(p, tc, bs)| (p.value() as u64, (*tc, to[&(p.value() as u64)], bs.iter().map(key).collect()))).collect(),
         trace: tr.iter().map(|(k, t)| (key(k), *t)).collect(),
         restart,
         div: t.division_point(),
+        adjustment,
+        protect,
+        ta_index,
+        ta_trace,
     }
+}
+
+/// the same fold the model driver prints (`Driver/C17.lean` `taHash`)
+fn ta_hash(v: &[u64]) -> u64 {
+    const P: u64 = 1_099_511_627_689; // 2^40 - 87
+    v.iter().fold(0u64, |hh, x| (hh * 1_000_003 + x % P) % P)
 }
 
 fn dump_str(d: &Dump) -> String {
@@ -544,17 +688,40 @@ fn dump_str(d: &Dump) -> String {
     let b: Vec<String> = d
         .scheds
         .iter()
-        .map(|(p, (tc, bs))| format!("{}:{}:[{}]", p, tc, bs.iter().map(|k| format!("{}:{}", k.0, k.1)).collect::<Vec<_>>().join(",")))
+        .map(|(p, (tc, to, bs))| format!("{}:{}/{}:[{}]", p, tc, to, bs.iter().map(|k| format!("{}:{}", k.0, k.1)).collect::<Vec<_>>().join(",")))
         .collect();
     let c: Vec<String> = d.trace.iter().map(|(k, t)| format!("{}:{}/{}", k.0, k.1, t)).collect();
     let j = |v: Vec<String>| if v.is_empty() { "-".to_string() } else { v.join(";") };
-    format!("states={} scheds={} trace={} restart={} div={},{},{}", j(a), j(b), j(c), d.restart, d.div.0, d.div.1, d.div.2)
+    format!(
+        "states={} scheds={} trace={} restart={} div={},{},{} pol={},{} ta={}/{}",
+        j(a),
+        j(b),
+        j(c),
+        d.restart,
+        d.div.0,
+        d.div.1,
+        d.div.2,
+        d.adjustment as u8,
+        d.protect,
+        d.ta_index,
+        ta_hash(&d.ta_trace)
+    )
 }
 
 struct InflightSim {
     t: InflightBlocks,
     guard: ckb_systemtime::FaketimeGuard,
     timeout: u64,
+}
+
+/// `DownloadScheduler::{increase, decrease}` as specified (saturating; the cap; the 2-strike rule as written)
+fn spec_increase(tc: usize, num: usize) -> usize {
+    let max = ckb_constant::sync::MAX_BLOCKS_IN_TRANSIT_PER_PEER;
+    if tc < max { tc.saturating_add(num).min(max) } else { tc }
+}
+fn spec_decrease(tc: usize, num: usize) -> (usize, usize) {
+    let to = tc.saturating_add(num);
+    if to > 2 { (tc.saturating_sub(1), 0) } else { (tc, to) }
 }
 
 impl InflightSim {
@@ -564,7 +731,7 @@ impl InflightSim {
     /// invariants of the property on the implementation's own state
     fn check(&self, out: &mut Out, what: &str, d: &Dump) {
         let mut seen: HashMap<Key, u64> = HashMap::new();
-        for (p, (_, bs)) in &d.scheds {
+        for (p, (tc, to, bs)) in &d.scheds {
             for b in bs {
                 if let Some(q) = seen.insert(*b, *p) {
                     out.oracle_fail("inflight-two-peers", &format!("{what}: block {b:?} listed for peers {q} and {p}"));
@@ -574,6 +741,39 @@ impl InflightSim {
                     other => out.oracle_fail("inflight-listed-not-in-flight", &format!("{what}: block {b:?} listed for {p}, state {other:?}")),
                 }
             }
+            // arithmetic bounds of the scheduler counters
+            if *tc > ckb_constant::sync::MAX_BLOCKS_IN_TRANSIT_PER_PEER || *to > 2 {
+                out.oracle_fail("inflight-counter-out-of-range", &format!("{what}: peer {p} task_count={tc} timeout_count={to}"));
+            }
+        }
+        let size = ckb_constant::sync::MAX_BLOCKS_IN_TRANSIT_PER_PEER * 4;
+        if d.ta_trace.len() != size || d.ta_index > size {
+            out.oracle_fail("inflight-analyzer-window", &format!("{what}: index={} len={}", d.ta_index, d.ta_trace.len()));
+        }
+    }
+    /// slow-block marks belong to in-flight blocks. The only way the code as written lets a mark
+    /// outlive its request is `remove_by_block` of a block whose requesting peer has no scheduler any
+    /// more (evicted by `prune`): `allowed`. Any other new mark without a request is a violation.
+    fn stale_check(&self, out: &mut Out, what: &str, before: &Dump, d: &Dump, allowed: Option<Key>) {
+        for k in d.trace.keys() {
+            if !d.states.contains_key(k) {
+                let was_stale = before.trace.contains_key(k) && !before.states.contains_key(k);
+                if !was_stale && Some(*k) != allowed {
+                    out.oracle_fail("inflight-mark-without-request", &format!("{what}: trace holds {k:?}, which is not in flight (trace must stay within inflight_states)"));
+                }
+            }
+        }
+    }
+    /// everything this op must not touch
+    fn frame(&self, out: &mut Out, what: &str, before: &Dump, d: &Dump, analyzer: bool, policy: bool, restart: bool) {
+        if analyzer && (d.div != before.div || d.ta_index != before.ta_index || d.ta_trace != before.ta_trace) {
+            out.oracle_fail("inflight-frame-analyzer", &format!("{what}: the time analyzer changed"));
+        }
+        if policy && (d.adjustment != before.adjustment || d.protect != before.protect) {
+            out.oracle_fail("inflight-frame-policy", &format!("{what}: adjustment/protect_num changed"));
+        }
+        if restart && d.restart != before.restart {
+            out.oracle_fail("inflight-frame-restart", &format!("{what}: restart_number {} -> {}", before.restart, d.restart));
         }
     }
     fn insert(&mut self, out: &mut Out, now: u64, peer: u64, k: Key) {
@@ -588,8 +788,21 @@ impl InflightSim {
         if !before.states.contains_key(&k) && (!r || d.states.get(&k) != Some(&(peer, now))) {
             out.oracle_fail("inflight-insert-lost", &op);
         }
+        if !before.states.contains_key(&k) {
+            // exactly one request more, listed for exactly this peer; a mark only below restart_number
+            let mut want = before.clone();
+            want.states.insert(k, (peer, now));
+            want.scheds.entry(peer).or_insert((ckb_constant::sync::INIT_BLOCKS_IN_TRANSIT_PER_PEER, 0, BTreeSet::new())).2.insert(k);
+            if before.restart >= k.0 {
+                want.trace.insert(k, now);
+            }
+            if d != want {
+                out.oracle_fail("inflight-insert-not-exact", &format!("{op}: got {} expected {}", dump_str(&d), dump_str(&want)));
+            }
+        }
         out.op(&op, &format!("{r} {}", dump_str(&d)));
         self.check(out, &op, &d);
+        self.stale_check(out, &op, &before, &d, None);
     }
     fn rmpeer(&mut self, out: &mut Out, peer: u64) {
         let before = dump_of(&self.t);
@@ -597,14 +810,24 @@ impl InflightSim {
         let d = dump_of(&self.t);
         let op = format!("rmpeer {peer}");
         match before.scheds.get(&peer) {
-            Some((_, listed)) => {
+            Some((_, _, listed)) => {
                 let mut want = before.clone();
                 want.scheds.remove(&peer);
                 for b in listed {
                     want.states.remove(b);
+                    want.trace.remove(b);
                 }
                 if n != listed.len() || d.states != want.states || d.scheds != want.scheds {
                     out.oracle_fail("inflight-rmpeer-not-exact", &format!("{op}: count={n} listed={}", listed.len()));
+                }
+                // nothing of the departed peer's requests stays anywhere: not a state, not a listing, not a mark
+                for b in listed {
+                    if d.states.contains_key(b) || d.trace.contains_key(b) || d.scheds.values().any(|x| x.2.contains(b)) {
+                        out.oracle_fail("inflight-rmpeer-leftover", &format!("{op}: block {b:?} of the departed peer is still recorded (state={:?} mark={:?})", d.states.get(b), d.trace.get(b)));
+                    }
+                }
+                if d.trace != want.trace {
+                    out.oracle_fail("inflight-rmpeer-trace-not-exact", &format!("{op}: trace={:?} expected={:?}", d.trace, want.trace));
                 }
             }
             None => {
@@ -613,8 +836,10 @@ impl InflightSim {
                 }
             }
         }
+        self.frame(out, &op, &before, &d, true, true, true);
         out.op(&op, &format!("{n} {}", dump_str(&d)));
         self.check(out, &op, &d);
+        self.stale_check(out, &op, &before, &d, None);
     }
     fn rmblock(&mut self, out: &mut Out, now: u64, k: Key) {
         self.guard.set_faketime(now);
@@ -623,17 +848,130 @@ impl InflightSim {
         let d = dump_of(&self.t);
         let op = format!("rmblock {now} {} {}", k.0, k.1);
         let mut want_states = before.states.clone();
-        let was = want_states.remove(&k).is_some();
-        let lists = |x: &Dump| -> BTreeMap<u64, BTreeSet<Key>> { x.scheds.iter().map(|(p, (_, bs))| (*p, bs.clone())).collect() };
+        let was = want_states.remove(&k);
+        let lists = |x: &Dump| -> BTreeMap<u64, BTreeSet<Key>> { x.scheds.iter().map(|(p, (_, _, bs))| (*p, bs.clone())).collect() };
         let mut want_lists = lists(&before);
         for bs in want_lists.values_mut() {
             bs.remove(&k);
         }
-        if r != was || d.states != want_states || lists(&d) != want_lists {
-            out.oracle_fail("inflight-rmblock-not-exact", &format!("{op}: returned {r}, was in flight {was}"));
+        if r != was.is_some() || d.states != want_states || lists(&d) != want_lists || (was.is_none() && d != before) {
+            out.oracle_fail("inflight-rmblock-not-exact", &format!("{op}: returned {r}, was in flight {}", was.is_some()));
+        }
+        // the slow mark goes with the request (when the requesting peer is still tracked); the peer's
+        // window follows the response-time class; nobody else's counters move
+        let tracked = was.map(|(p, _)| before.scheds.contains_key(&p)).unwrap_or(false);
+        let mut want_trace = before.trace.clone();
+        if tracked {
+            want_trace.remove(&k);
+        }
+        if d.trace != want_trace {
+            out.oracle_fail("inflight-rmblock-trace-not-exact", &format!("{op}: trace={:?} expected={:?}", d.trace, want_trace));
+        }
+        let size = ckb_constant::sync::MAX_BLOCKS_IN_TRANSIT_PER_PEER * 4;
+        let measured = tracked && before.adjustment;
+        if let Some((peer, ts)) = was {
+            let punish = before.scheds.len() > before.protect;
+            for (p, (tc0, to0, _)) in &before.scheds {
+                let (mut tc, mut to) = (*tc0, *to0);
+                if *p == peer && measured {
+                    let elapsed = now.saturating_sub(ts);
+                    // classes are read against the thresholds after the window update
+                    if elapsed <= d.div.0 {
+                        tc = spec_increase(tc, 2);
+                    } else if elapsed <= d.div.1 {
+                        tc = spec_increase(tc, 1);
+                    } else if elapsed > d.div.2 {
+                        if punish {
+                            (tc, to) = spec_decrease(tc, 2);
+                        }
+                    } else if punish {
+                        (tc, to) = spec_decrease(tc, 1);
+                    }
+                }
+                match d.scheds.get(p) {
+                    Some((a, b, _)) if *a == tc && *b == to => {}
+                    other => out.oracle_fail("inflight-rmblock-window", &format!("{op}: peer {p} counters {:?} expected ({tc},{to})", other.map(|x| (x.0, x.1)))),
+                }
+            }
+            if measured {
+                let elapsed = now.saturating_sub(ts);
+                let (want_index, want_div, want_trace) = if before.ta_index < size {
+                    let mut t = before.ta_trace.clone();
+                    t[before.ta_index] = elapsed;
+                    (before.ta_index + 1, before.div, t)
+                } else {
+                    let mut t = before.ta_trace.clone();
+                    t.sort();
+                    let avg = |a: u64, b: u64| a.saturating_add(b) >> 1;
+                    let dv = (avg(before.div.0, t[size / 3]), avg(before.div.1, t[size * 4 / 5]), avg(before.div.2, t[size * 9 / 10]));
+                    t[0] = elapsed;
+                    (1, dv, t)
+                };
+                if d.ta_index != want_index || d.div != want_div || d.ta_trace != want_trace {
+                    out.oracle_fail("inflight-analyzer-step", &format!("{op}: index {} -> {} (expected {want_index}), thresholds {:?} -> {:?} (expected {want_div:?})", before.ta_index, d.ta_index, before.div, d.div));
+                }
+            }
+        }
+        self.frame(out, &op, &before, &d, !measured, true, true);
+        if d.scheds.len() != before.scheds.len() {
+            out.oracle_fail("inflight-rmblock-window", &format!("{op}: a scheduler appeared or vanished"));
         }
         out.op(&op, &format!("{r} {}", dump_str(&d)));
         self.check(out, &op, &d);
+        // reported finding on the unchanged tree (corpus inflight-stale-mark-from-evicted-peer.ops): the block arrived
+        // from a peer that `prune` evicted, and its slow mark outlives the request. Permitted and counted, not failing.
+        if was.is_some() && !tracked && d.trace.contains_key(&k) {
+            out.count("inflight-stale-mark-from-evicted-peer");
+        }
+        self.stale_check(out, &op, &before, &d, if was.is_some() && !tracked { Some(k) } else { None });
+    }
+    /// `prune` as specified, on the dump before the call: (table after, disconnect list)
+    fn spec_prune(&self, before: &Dump, now: u64, tip: u64) -> (Dump, BTreeSet<u64>) {
+        let mut w = before.clone();
+        let punish = before.scheds.len() > before.protect && before.adjustment;
+        // 1. requests within tip+20 older than BLOCK_DOWNLOAD_TIMEOUT go, with their listing and mark;
+        //    the requesting peer's window is quartered per request when punishing
+        for (k, (peer, ts)) in &before.states {
+            if k.0 <= tip + 20 && ts + self.timeout < now {
+                w.states.remove(k);
+                w.trace.remove(k);
+                if let Some(sc) = w.scheds.get_mut(peer) {
+                    sc.2.remove(k);
+                    if punish {
+                        sc.0 >>= 2;
+                    }
+                }
+            }
+        }
+        // 2. peers whose window reached zero are disconnected
+        let dis: BTreeSet<u64> = w.scheds.iter().filter(|(_, sc)| sc.0 == 0).map(|(p, _)| *p).collect();
+        for p in &dis {
+            w.scheds.remove(p);
+        }
+        // 3. restart_number is cleared once the tip passed it
+        if w.restart != 0 && tip + 1 > w.restart {
+            w.restart = 0;
+        }
+        // 4. marks older than low_time go, with their request and listing (window halved when punishing);
+        //    restart_number rises to the highest such block
+        let marks: Vec<(Key, u64)> = w.trace.iter().map(|(k, t)| (*k, *t)).collect();
+        for (k, t) in marks {
+            if now > before.div.2 + t {
+                w.trace.remove(&k);
+                if let Some((peer, _)) = w.states.remove(&k) {
+                    if let Some(sc) = w.scheds.get_mut(&peer) {
+                        if punish {
+                            sc.0 >>= 1;
+                        }
+                        sc.2.remove(&k);
+                    }
+                }
+                if k.0 > w.restart {
+                    w.restart = k.0;
+                }
+            }
+        }
+        (w, dis)
     }
     fn prune(&mut self, out: &mut Out, now: u64, tip: u64) {
         self.guard.set_faketime(now);
@@ -660,16 +998,33 @@ impl InflightSim {
         if d.states != want {
             out.oracle_fail("inflight-prune-not-exact", &format!("{op}: states after={:?} expected={:?}", d.states.keys().collect::<Vec<_>>(), want.keys().collect::<Vec<_>>()));
         }
-        for (p, (_, bs)) in &d.scheds {
-            let old = before.scheds.get(p).map(|x| x.1.clone()).unwrap_or_default();
+        for (p, (_, _, bs)) in &d.scheds {
+            let old = before.scheds.get(p).map(|x| x.2.clone()).unwrap_or_default();
             let keep: BTreeSet<Key> = old.iter().filter(|b| d.states.contains_key(b)).copied().collect();
             if *bs != keep {
                 out.oracle_fail("inflight-prune-list-not-exact", &format!("{op}: peer {p}"));
             }
         }
         let ds: BTreeSet<u64> = dis.iter().map(|p| p.value() as u64).collect();
+        // the whole table against the specification, policy fields included
+        let (w, wdis) = self.spec_prune(&before, now, tip);
+        if ds != wdis {
+            out.oracle_fail("inflight-prune-disconnect", &format!("{op}: disconnect={} expected={}", show(ds.clone()), show(wdis)));
+        }
+        if d.trace != w.trace {
+            out.oracle_fail("inflight-prune-trace-not-exact", &format!("{op}: trace={:?} expected={:?}", d.trace, w.trace));
+        }
+        if d.restart != w.restart {
+            out.oracle_fail("inflight-prune-restart", &format!("{op}: restart_number={} expected={}", d.restart, w.restart));
+        }
+        let counters = |x: &Dump| -> BTreeMap<u64, (usize, usize)> { x.scheds.iter().map(|(p, sc)| (*p, (sc.0, sc.1))).collect() };
+        if counters(&d) != counters(&w) {
+            out.oracle_fail("inflight-prune-window", &format!("{op}: counters={:?} expected={:?} (punish={})", counters(&d), counters(&w), before.scheds.len() > before.protect && before.adjustment));
+        }
+        self.frame(out, &op, &before, &d, true, true, false);
         out.op(&op, &format!("disconnect={} {}", show(ds), dump_str(&d)));
         self.check(out, &op, &d);
+        self.stale_check(out, &op, &before, &d, None);
     }
     fn mark(&mut self, out: &mut Out, now: u64, tip: u64) {
         self.guard.set_faketime(now);
@@ -679,6 +1034,32 @@ impl InflightSim {
         let op = format!("mark {now} {tip}");
         if d.states != before.states || d.scheds != before.scheds {
             out.oracle_fail("inflight-mark-changed-table", &op);
+        }
+        // every request at or below tip+1 is marked (an existing mark keeps its time), nothing else
+        let mut want = before.trace.clone();
+        for k in before.states.keys() {
+            if k.0 <= tip + 1 {
+                want.entry(*k).or_insert(now);
+            }
+        }
+        if d.trace != want {
+            out.oracle_fail("inflight-mark-not-exact", &format!("{op}: trace={:?} expected={:?}", d.trace, want));
+        }
+        self.frame(out, &op, &before, &d, true, true, true);
+        out.op(&op, &format!("ok {}", dump_str(&d)));
+        self.check(out, &op, &d);
+        self.stale_check(out, &op, &before, &d, None);
+    }
+    fn policy(&mut self, out: &mut Out, adjustment: bool, protect: usize) {
+        let before = dump_of(&self.t);
+        self.t.verif_set_policy(adjustment, protect);
+        let d = dump_of(&self.t);
+        let op = format!("policy {} {protect}", adjustment as u8);
+        let mut want = before.clone();
+        want.adjustment = adjustment;
+        want.protect = protect;
+        if d != want {
+            out.oracle_fail("inflight-policy-changed-table", &op);
         }
         out.op(&op, &format!("ok {}", dump_str(&d)));
     }
@@ -692,6 +1073,19 @@ fn inflight_case(out: &mut Out, rng: &mut Rng, n_ops: usize, long: bool) {
     let mut now = 100_000u64;
     let mut tip = 0u64;
     let (mut timeouts, mut refused, mut evicted) = (0, 0, 0);
+    // the punishment policy: protect_num around the number of peers (the `len > protect_num` edge),
+    // adjustment on (IBD) or off (what Synchronizer::notify sets after IBD)
+    let policy_case = rng.chance(1, 2);
+    if policy_case {
+        let protect = match rng.below(4) {
+            0 => 0,
+            1 => peers.saturating_sub(1),
+            2 => peers.saturating_sub(2),
+            _ => rng.below(peers + 1),
+        };
+        sim.policy(out, !rng.chance(1, 6), protect as usize);
+        out.count("inflight-policy");
+    }
     let pick_block = |rng: &mut Rng, tip: u64| -> Key {
         let n = match rng.below(6) {
             0 => tip + 19 + rng.below(4), // around the tip+20 edge
@@ -750,6 +1144,12 @@ fn inflight_case(out: &mut Out, rng: &mut Rng, n_ops: usize, long: bool) {
                 sim.mark(out, now, tip);
                 out.count("inflight-mark");
             }
+            17 if policy_case && rng.chance(1, 3) => {
+                let d = dump_of(&sim.t);
+                let protect = if rng.chance(1, 2) { d.scheds.len().saturating_sub(rng.below(2) as usize) } else { rng.below(peers + 1) as usize };
+                sim.policy(out, if rng.chance(1, 4) { !d.adjustment } else { d.adjustment }, protect);
+                out.count("inflight-policy");
+            }
             _ => {
                 tip += rng.below(3);
             }
@@ -779,6 +1179,7 @@ fn inflight_replay(out: &mut Out, ops: &[String]) {
             "rmblock" => sim.rmblock(out, n(1), (n(2), n(3))),
             "prune" => sim.prune(out, n(1), n(2)),
             "mark" => sim.mark(out, n(1), n(2)),
+            "policy" => sim.policy(out, n(1) != 0, n(2) as usize),
             "consts" => out.op("consts", &consts_line()),
             other => panic!("C17 inflight replay: unknown op {other}"),
         }
